@@ -46,6 +46,13 @@ def run(chk, repo):
     creation(chk, repo)
     counter_use(chk, repo)
     descriptors(chk, repo)
+    chk.doc("R15.11", "locks and counters are per master / per terminal")
+    per_instance_rule(chk, repo, "R15.11", ["ebpfcat.ethercat.EtherCat",
+                                            "ebpfcat.ethercat.Terminal",
+                                            "ebpfcat.lock.MailboxLock",
+                                            "ebpfcat.lock.LockFile"],
+                      "terminals of the same address on two buses share "
+                      "one lock and one counter")
     from . import c23
     chk.doc("R15.9", "the shared counter file lives as long as any "
                      "participant (shared with C23)")
